@@ -95,6 +95,11 @@ class SerEnv:
         self._old_tempdir = tempfile.tempdir
         tempfile.tempdir = io.tmp_root   # mkstemp/NamedTemporaryFile/... also land in the sandbox
         self._old_cwd = os.getcwd()
+        # HOME is part of the simulated machine: a scratch home directory inside the sandbox, so
+        # that '~' in a target path (path kind "tilde") can never reach the real one
+        self._old_home = os.environ.get("HOME")
+        self.home = os.path.join(self.work, "home_dir")
+        os.environ["HOME"] = self.home
         self._zcfg = zarr.config.set(dict(self.env.get("zarr", {})))
         self._zcfg.__enter__()
         return self
@@ -115,6 +120,10 @@ class SerEnv:
             import tempfile
 
             tempfile.tempdir = self._old_tempdir
+            if self._old_home is None:
+                os.environ.pop("HOME", None)
+            else:
+                os.environ["HOME"] = self._old_home
             try:
                 os.chdir(self._old_cwd)
             except Exception:
@@ -126,6 +135,11 @@ class SerEnv:
     # ---------------------------------------------------------------------------------
     def path(self, name, kind="str"):
         p = os.path.join(self.work, name)
+        if kind in ("tilde", "tildePath"):
+            # spelled '~/name', given verbatim, cwd = the work directory.  The library does not expand
+            # '~' (the literal directory './~' is the parent); $HOME/name holds a decoy object
+            os.chdir(self.work)
+            return Path(name) if kind == "tildePath" else name
         if kind in ("rel", "relPath"):
             # relative to the current directory (the run's work directory)
             os.chdir(self.work)
